@@ -23,12 +23,12 @@ namespace avel {
         //=================================================
 
         explicit Denominator(std::int32_t d):
-            Denominator(d, max(bit_width(abs(d) - 1), std::int32_t(1))) {}
+            Denominator(d, max(std::int32_t(bit_width(std::uint32_t(abs(d)) - std::uint32_t(1))), std::int32_t(1))) {}
 
     private:
 
         explicit Denominator(std::int32_t d, std::int32_t l):
-            mp((std::int64_t(0x80000000) << l) / abs(d) - 0xffffffff),
+            mp((std::int64_t(0x80000000) << l) / std::int64_t(std::uint32_t(abs(d))) - 0xffffffff),
             d_sign(d >> 31),
             sh(l - 1),
             d(d) {}
